@@ -43,3 +43,17 @@ package csr
 //@   ensures [declared-version-or-0.0] err == nil ==> ((result0.Attrs.SSHClientVersion == "" ==> (result0.SSHClientVersion.major == 0 && result0.SSHClientVersion.minor == 0 && calls(version.Unmarshal) == v0)) &&
 //@     (result0.Attrs.SSHClientVersion != "" ==> (calls(version.Unmarshal) == v0 + 1 && arg(version.Unmarshal, v0, 0) == result0.Attrs.SSHClientVersion &&
 //@       ret(version.Unmarshal, v0, 1) == nil && result0.SSHClientVersion == ret(version.Unmarshal, v0, 0))))
+
+//@ # ---------------------------------------------------------------- collaborators of gensign.Run (C01, C04): abstract, may fail or panic at every call
+//@ interface (Generator).Generate(params)
+//@   flag logged maypanic
+//@   ensures true
+//@ interface (AgentKey).CSRs()
+//@   flag logged maypanic
+//@   ensures true
+//@ interface (AgentKey).AddCertsToAgent(certs, comments)
+//@   flag logged maypanic
+//@   ensures true
+//@ interface (Signer).Sign(ctx, request)
+//@   flag logged maypanic
+//@   ensures true
